@@ -256,6 +256,7 @@ from pyvc.sym import SReal, wrap, tz  # noqa: E402
 
 @register
 class SharedChunks(FuncSpec):
+    pure_replay = True  # plain-value arguments: counterexamples are run through the real function (pyvc/replay_pure.py)
     """_calculate_shared_chunks(read, write): elementwise minimum — hence no larger than either neighbour."""
 
     target = f"{ALG}:_calculate_shared_chunks"
@@ -277,6 +278,7 @@ class SharedChunks(FuncSpec):
 
 @register
 class FixCopyChunks(FuncSpec):
+    pure_replay = True  # plain-value arguments: counterexamples are run through the real function (pyvc/replay_pure.py)
     """_fix_copy_chunks(shape, copy_chunks, target_chunks): per axis the result is the copy chunk itself when it is not
     larger than the target chunk, the full extent, or already a multiple; otherwise it is rounded *down* to the largest
     multiple of the target chunk.  ensures 1 <= result <= copy chunk and (result <= target or result == extent or
@@ -373,6 +375,7 @@ def install_planner_env(c):
 
 @register
 class Multspace(FuncSpec):
+    pure_replay = True  # plain-value arguments: counterexamples are run through the real function (pyvc/replay_pure.py)
     """_multspace(start, stop, num) for 1 <= start <= stop: every yielded value is >= 1, not larger than the
     geomspace sample it was derived from, and an exact multiple of the previously yielded value (loop invariant
     1 <= vint <= previous sample) — so consecutive regular stage chunks nest."""
@@ -408,6 +411,7 @@ class Multspace(FuncSpec):
 
 
 class PlannerSpec(FuncSpec):
+    pure_replay = True  # plain-value arguments: counterexamples are run through the real function (pyvc/replay_pure.py)
     """common contract of the two multistage planners (stage count cut at `bound`)."""
 
     props = ("C14", "C05", "C17")
